@@ -108,6 +108,15 @@ func isFlagSet(name string) bool {
 }
 
 func run(pr *rules.Property, tier, repo, root, onlyRule, onlyKey string) (code int) {
+	// wall-clock budget of one abstract-interpretation run (all paths of one variant); the unchanged tree needs a few
+	// seconds at most per run in the quick tier and about a minute in the thorough tier
+	if os.Getenv("ORYX_RUN_BUDGET_S") == "" {
+		if tier == "thorough" {
+			os.Setenv("ORYX_RUN_BUDGET_S", "900")
+		} else {
+			os.Setenv("ORYX_RUN_BUDGET_S", "90")
+		}
+	}
 	r := core.NewRun(pr.ID, tier, root)
 	if s := os.Getenv("VERIF_SEED"); s != "" {
 		r.Seed, _ = strconv.ParseInt(s, 10, 64)
